@@ -17,8 +17,8 @@ type C15Case struct {
 }
 
 func genC15(t *rapid.T) C15Case {
-	lim := tierLimits()
-	if thorough() {
+	lim := genLimits(t)
+	if thorough() && lim.maxAdd <= 200 {
 		lim.maxLeaves, lim.maxBlocks, lim.maxAdd = 500, 40, 60
 	}
 	c := C15Case{Blocks: genHistory(t, lim, false)}
